@@ -74,6 +74,25 @@ pub(crate) fn bus_same(a: &Bus, b: &Bus) -> bool {
         && board_same(a10, b10)
 }
 
+/// Everything except the RAM array (contracts compare RAM at a symbolic index instead, which states
+/// the same "for all cells" without a 240-iteration memcmp).
+pub(crate) fn bus_same_but_ram(a: &Bus, b: &Bus) -> bool {
+    a.input_reg[0] == b.input_reg[0]
+        && a.input_reg[1] == b.input_reg[1]
+        && a.input_reg[2] == b.input_reg[2]
+        && a.input_reg[3] == b.input_reg[3]
+        && a.output_reg[0] == b.output_reg[0]
+        && a.output_reg[1] == b.output_reg[1]
+        && a.micr == b.micr
+        && a.misr == b.misr
+        && a.ucr == b.ucr
+        && a.usr == b.usr
+        && a.uart_send == b.uart_send
+        && a.uart_recv == b.uart_recv
+        && a.int_timer == b.int_timer
+        && board_same(&a.board, &b.board)
+}
+
 // Field projections for contracts written outside this module (raw machine).
 pub(crate) fn micr_bits(b: &Bus) -> u8 {
     b.micr.bits()
